@@ -312,7 +312,10 @@ def overlap (env : Env) (a b : Hdr) : Bool :=
   a.tr == b.tr && env.sameTy a.self b.self && env.sameTy a.arg b.arg
 
 /-- `impl<T> From<T> for T` (core) -/
-def hitsReflexiveFrom (env : Env) (h : Hdr) : Bool := h.tr == "From" && env.sameTy h.arg h.self
+def hitsReflexiveFrom (env : Env) (h : Hdr) : Bool :=
+  h.tr == "From" && (env.sameTy h.arg h.self ||
+    -- alloc's `impl<T> From<T> for Box<T>` (a newtype whose inner type is a `Box` of itself)
+    env.sameTy ("::std::boxed::Box<" ++ h.arg ++ ">") h.self)
 
 /-- `impl<T, U: Into<T>> TryFrom<U> for T` (core): an explicit `TryFrom<U> for T` collides with it as soon
     as `From<U> for T` exists (or `U = T`) -/
